@@ -126,7 +126,7 @@ func testPEM() (cert, key string) {
 
 func target() *httptest.Server {
 	targetOnce.Do(func() {
-		targetServer = httptest.NewServer(http.HandlerFunc(func(w http.ResponseWriter, _ *http.Request) { w.WriteHeader(http.StatusOK) }))
+		targetServer = httptest.NewServer(recordingHandler())
 	})
 	return targetServer
 }
@@ -154,8 +154,10 @@ func prepare(p any) {
 		c.NetAddr.Transport = "tcp"
 	case *otlphttpexporter.Config:
 		c.ClientConfig.Endpoint = target().URL
+		c.QueueConfig.Enabled, c.RetryConfig.Enabled = false, false // Consume* sends synchronously, once
 	case *otlpexporter.Config:
 		c.ClientConfig.Endpoint = "localhost:4317"
+		c.QueueConfig.Enabled, c.RetryConfig.Enabled = false, false
 	case *otlpreceiver.Config:
 		if c.GRPC != nil {
 			c.GRPC.NetAddr.Endpoint = "localhost:0"
@@ -178,27 +180,20 @@ func guard(op string, errs *[]opErr, fn func() error) {
 	}
 }
 
-func useHTTPClient(c *confighttp.ClientConfig, errs *[]opErr) {
+func useHTTPClient(c *confighttp.ClientConfig, errs *[]opErr, dv *[]deliv) {
 	guard("ToClient", errs, func() error {
 		cl, err := c.ToClient(context.Background(), nopHost, componenttest.NewNopTelemetrySettings())
 		if err != nil {
 			return err
 		}
 		defer cl.CloseIdleConnections()
-		// one request: the transport validates and writes the configured headers
-		req, err := http.NewRequest(http.MethodPost, c.Endpoint, strings.NewReader("x"))
-		if err != nil {
-			return fmt.Errorf("NewRequest: %w", err)
-		}
-		resp, err := cl.Do(req)
-		if err != nil {
-			return fmt.Errorf("Do: %w", err)
-		}
-		return resp.Body.Close()
+		// requests to the local test server: the transport validates and writes
+		// the configured headers, the server records what it received
+		return deliverHTTP(c, cl, dv)
 	})
 }
 
-func useHTTPServer(c *confighttp.ServerConfig, errs *[]opErr) {
+func useHTTPServer(c *confighttp.ServerConfig, errs *[]opErr, dv *[]deliv) {
 	guard("ToListener", errs, func() error {
 		ln, err := c.ToListener(context.Background())
 		if err != nil {
@@ -213,11 +208,12 @@ func useHTTPServer(c *confighttp.ServerConfig, errs *[]opErr) {
 		}
 		rec := httptest.NewRecorder()
 		srv.Handler.ServeHTTP(rec, httptest.NewRequest(http.MethodGet, "/", nil))
+		checkResponseHeaders(rec.Header(), c.ResponseHeaders, dv)
 		return srv.Close()
 	})
 }
 
-func useGRPCClient(c *configgrpc.ClientConfig, errs *[]opErr) {
+func useGRPCClient(c *configgrpc.ClientConfig, errs *[]opErr, dv *[]deliv) {
 	guard("ToClientConn", errs, func() error {
 		conn, err := c.ToClientConn(context.Background(), nopHost, componenttest.NewNopTelemetrySettings())
 		if err != nil {
@@ -226,7 +222,7 @@ func useGRPCClient(c *configgrpc.ClientConfig, errs *[]opErr) {
 		// a call on an already cancelled context runs the client interceptors
 		// (which attach the headers) and returns without touching the network
 		ierr := conn.Invoke(canceledCtx, "/c14.Probe/Call", &struct{}{}, &struct{}{})
-		return errors.Join(ierr, conn.Close())
+		return errors.Join(ierr, conn.Close(), deliverGRPC(c, dv))
 	})
 }
 
@@ -259,7 +255,7 @@ func startStop(op string, errs *[]opErr, create func() (startStopper, error)) {
 
 // runOps calls the selected public entry points on the real config object p
 // (pointer to the struct) and returns every error they produced.
-func runOps(name string, p any, hdrs int, sec [][]byte, ops []string) []opErr {
+func runOps(name string, p any, hdrs int, sec [][]byte, ops []string, dv *[]deliv) []opErr {
 	var errs []opErr
 	prepare(p)
 	has := func(op string) bool {
@@ -301,24 +297,58 @@ func runOps(name string, p any, hdrs int, sec [][]byte, ops []string) []opErr {
 		case *configtls.ClientConfig:
 			guard("LoadTLSConfig", &errs, func() error { _, err := c.LoadTLSConfig(context.Background()); return err })
 		case *confighttp.ClientConfig:
-			useHTTPClient(c, &errs)
+			useHTTPClient(c, &errs, dv)
 		case *EmbedSquash:
-			useHTTPClient(&c.ClientConfig, &errs)
+			useHTTPClient(&c.ClientConfig, &errs, dv)
 		case *confighttp.ServerConfig:
-			useHTTPServer(c, &errs)
+			useHTTPServer(c, &errs, dv)
 		case *configgrpc.ClientConfig:
-			useGRPCClient(c, &errs)
+			useGRPCClient(c, &errs, dv)
 		case *configgrpc.ServerConfig:
 			useGRPCServer(c, &errs)
 		case *otlphttpexporter.Config:
 			f := otlphttpexporter.NewFactory()
-			startStop("otlphttpexporter create+Start+Shutdown", &errs, func() (startStopper, error) {
-				return f.CreateLogs(context.Background(), exportertest.NewNopSettings(f.Type()), c)
+			guard("otlphttpexporter create+Start+Consume+Shutdown", &errs, func() error {
+				exp, err := f.CreateLogs(context.Background(), exportertest.NewNopSettings(f.Type()), c)
+				if err != nil {
+					return fmt.Errorf("create: %w", err)
+				}
+				serr := exp.Start(context.Background(), nopHost)
+				if serr == nil {
+					takeHTTP()
+					serr = exp.ConsumeLogs(context.Background(), oneLog())
+					if got := takeHTTP(); got != nil {
+						checkHTTPReceived("exporter", got, c.ClientConfig.Headers, dv)
+					}
+				}
+				return errors.Join(serr, exp.Shutdown(context.Background()))
 			})
 		case *otlpexporter.Config:
 			f := otlpexporter.NewFactory()
-			startStop("otlpexporter create+Start+Shutdown", &errs, func() (startStopper, error) {
-				return f.CreateTraces(context.Background(), exportertest.NewNopSettings(f.Type()), c)
+			guard("otlpexporter create+Start+Consume+Shutdown", &errs, func() error {
+				wire := wireable(&c.ClientConfig)
+				if wire {
+					oldEP, oldIns := c.ClientConfig.Endpoint, c.ClientConfig.TLSSetting.Insecure
+					c.ClientConfig.Endpoint, c.ClientConfig.TLSSetting.Insecure = wireServer(), true
+					defer func() { c.ClientConfig.Endpoint, c.ClientConfig.TLSSetting.Insecure = oldEP, oldIns }()
+				}
+				exp, err := f.CreateTraces(context.Background(), exportertest.NewNopSettings(f.Type()), c)
+				if err != nil {
+					return fmt.Errorf("create: %w", err)
+				}
+				serr := exp.Start(context.Background(), nopHost)
+				if serr == nil && wire {
+					ctx, cancel := context.WithTimeout(context.Background(), 5*time.Second)
+					takeGRPC()
+					cerr := exp.ConsumeTraces(ctx, oneSpan())
+					cancel()
+					if got := takeGRPC(); got != nil {
+						checkGRPCReceived("otlpexporter, on the wire", "exporter", got, c.ClientConfig.Headers, dv)
+					} else {
+						serr = cerr
+					}
+				}
+				return errors.Join(serr, exp.Shutdown(context.Background()))
 			})
 		case *otlpreceiver.Config:
 			f := otlpreceiver.NewFactory()
@@ -489,14 +519,24 @@ func evalUse(c *vt.C, s *UseScript) *useVerdict {
 	}
 	b := newBuilder()
 	var errs []opErr
+	var dv []deliv
 	var cur [][]byte
 	b.afterFill = func(n *Node, p reflect.Value) {
-		errs = append(errs, runOps(n.Real, p.Interface(), n.N, cur, s.Ops)...)
+		errs = append(errs, runOps(n.Real, p.Interface(), n.N, cur, s.Ops, &dv)...)
 	}
 	var outs [2][][]out
 	for a, sec := range [][][]byte{s.S1, s.S2} {
-		errs, cur = nil, sec
+		errs, dv, cur = nil, nil, sec
 		v := b.instantiate(shape, sec).Interface()
+		// (0) delivery: the peer received the configured secrets
+		for k, n := range delivChecked {
+			c.ClassN("delivery-checked:"+k, n)
+			delete(delivChecked, k)
+		}
+		if len(dv) > 0 {
+			c.Class("delivery-failed")
+			return fail(nil, "delivery/"+s.Real+"/"+dv[0].variant, "%s", dv[0].msg)
+		}
 		// (1) error texts
 		for _, e := range errs {
 			c.Class("error:" + s.Real + "/" + e.op)
@@ -624,8 +664,10 @@ func useSecrets(t *rapid.T, shape *Node, kind string) (s1, s2 [][]byte) {
 		isPEM := strings.HasSuffix(p, "_pem")
 		var a, b []byte
 		switch {
-		case kind == "headers-only" && isPEM, kind == "pem-only" && !isPEM:
+		case kind == "headers-only" && isPEM, kind == "pem-only" && !isPEM, kind == "deliverable" && isPEM:
 			a, b = []byte{}, []byte{}
+		case kind == "deliverable":
+			a, b = genDeliverable(t), genDeliverable(t)
 		case kind == "valid-pem" && isPEM:
 			body := cert
 			if strings.HasSuffix(p, "key_pem") {
@@ -654,7 +696,10 @@ func useSecretsDet(shape *Node, kind string, salt int) (s1, s2 [][]byte) {
 		}
 		var a, b string
 		switch {
-		case kind == "headers-only" && isPEM, kind == "pem-only" && !isPEM:
+		case kind == "headers-only" && isPEM, kind == "pem-only" && !isPEM, kind == "deliverable" && isPEM:
+		case kind == "deliverable":
+			pj := func(i int) string { return printableJunk[(salt+i)%len(printableJunk)] }
+			a, b = "Bearer "+rot("ZQJXKW", j)+pj(j)+"QZ"+pj(2*j+1)+"x", rot("WKXJQZQ", j)+pj(j+3)+"K"
 		case kind == "valid-pem" && isPEM:
 			body := cert
 			if strings.HasSuffix(p, "key_pem") {
@@ -674,7 +719,22 @@ func useSecretsDet(shape *Node, kind string, salt int) (s1, s2 [][]byte) {
 	return s1, s2
 }
 
-var useKinds = []string{"junk", "headers-only", "pem-only", "valid-pem"}
+// printableJunk: fragments of header values that every transport accepts
+// (printable ASCII; no leading/trailing white space is produced around them).
+var printableJunk = []string{"", "-", "%s", "%d", "%", marker, "\"", "'", "\\", "=", ";", ",", ":", "  ", "~", "[", "]", "{}", "<&>", "a b", "0x1F", "true"}
+
+// genDeliverable: a secret that HTTP and gRPC can carry as a header value.
+func genDeliverable(t *rapid.T) []byte {
+	n := rapid.IntRange(6, 9).Draw(t, "sentlen")
+	rs := make([]rune, n)
+	for i := range rs {
+		rs[i] = rapid.SampledFrom(asciiSent).Draw(t, "sentrune")
+	}
+	pre := rapid.SampledFrom([]string{"", "Bearer ", "Basic ", marker, "%s"}).Draw(t, "pre")
+	return []byte(pre + string(rs) + rapid.SampledFrom(printableJunk).Draw(t, "mid") + rapid.SampledFrom(printableJunk).Draw(t, "tail") + "x")
+}
+
+var useKinds = []string{"junk", "headers-only", "pem-only", "valid-pem", "deliverable", "deliverable"}
 var useWraps = []string{"value", "ptr", "struct", "ptr-struct", "slice"}
 
 func genUse(t *rapid.T) UseScript {
@@ -721,7 +781,7 @@ func TestUseSweep(t *testing.T) {
 	full := usePathsFull()
 	idx := 0
 	for _, real := range useReals {
-		for _, kind := range useKinds {
+		for _, kind := range []string{"junk", "headers-only", "pem-only", "valid-pem", "deliverable"} {
 			for _, wr := range useWraps {
 				idx++
 				if idx%shards != shard {
